@@ -155,17 +155,17 @@ def grid_construction(rep, res, entry):
     items = res.value.items
     newdom = items[0] if items else res.value
     grid_fns = {ev.fn.qual for ev in res.events("linspace")} | {ev.fn.qual for ev in res.events("int_cast")}
-    for ev in res.events("int_cast"):
-        a = ev.d["arg"]
-        if not ({"dom1", "dom2"} & (a.flat().data | a.flat().shp)):
+    for ev in res.events("linspace"):
+        n_ = ev.d.get("num")
+        if n_ is None or not ({"dom1", "dom2"} & (n_.flat().data | n_.flat().shp)):
             continue
-        how = ev.d["how"]
+        how = n_.tag("count_how")          # set by int(<rounding>(quotient)) ± constant; lost through any selection between candidates
         st = None if how is None else (how == "nearest")
         rep.check("R-VALUE", "number of grid intervals = overlap / coarsest step rounded to NEAREST", st, where=ev.loc, construct=ev.text(),
                   entry=entry, config=res.config,
-                  msg=f"the quotient overlap / step is converted with `{how}` (towards zero / one-sided): whenever the overlap is not a "
-                      f"near-integer multiple of the coarsest step the grid has one interval too few or too many and its step is not the one "
-                      f"closest to the coarsest mean input step")
+                  msg=f"the number of samples is the quotient overlap / step converted with `{how}` (towards zero / one-sided) plus a constant: "
+                      f"whenever the overlap is not a near-integer multiple of the coarsest step the grid has one interval too few or too many "
+                      f"and its step is not the one closest to the coarsest mean input step")
     # judged where the grid is built: every array handed on as `new_domain` to the interpolators
     grids = {}
     for ev in res.events("opaque_callee"):
